@@ -227,7 +227,7 @@ def run_shard(ctx):
             ctx.cls("union-variants-%d" % nv)
         else:
             text_ok = rng.random() < 0.6
-            u = GT.gen_universe(rng, small=False, text_ok=text_ok)
+            u = GT.gen_universe(rng, small=False, text_ok=text_ok, consts=True)
         seed = rng.randrange(1 << 30)
         done += 1
         lay = Layout(u)
